@@ -18,6 +18,7 @@ import (
 // probe) belongs to the per-connection goroutine that installs the recover. Otherwise one silent or malformed
 // client stalls or kills every later connection on every port.
 func c01DispatchConfined(c *Ctx) {
+	c.Explanation += " (e) the shared accept/dispatch goroutines only hand accepted connections on: no call made there with the connection reaches a Read/Peek/CanHandle (same-goroutine call-graph reach)."
 	p := c.P
 	g := p.VTA()
 	isConnT := func(t types.Type) bool {
